@@ -286,6 +286,25 @@ def run_family(ctx: Ctx, prop: str, observer, rule: str) -> int:
         raise MachineryError("family is almost entirely ill-formed")
     global _OBS
     _OBS = observer
+    # binding self-test: a tampered prediction must be reported as a disagreement (else the replayer is blind)
+    import copy
+
+    tampered = 0
+    for s in ok[:: max(1, len(ok) // 12)][:12]:
+        t = copy.deepcopy(s)
+        if prop == "C01":
+            if not t["pts"][1]["rhs"]:
+                continue
+            t["pts"][1]["rhs"][0] += 1
+        else:
+            k = next(iter(fn_to_dict(t["init"])), None)
+            if k is None:
+                continue
+            t["init"] = {**fn_to_dict(t["init"]), k: fn_to_dict(t["init"])[k] + 1}
+        tampered += 1
+        if _wrap(t) is None:
+            raise MachineryError("binding self-test failed: a tampered prediction was not reported by the replayer")
+    rep.notes["tampered_predictions_rejected"] = tampered
     bads = pmap(_wrap, ok, chunk=64)
     for s, bad in zip(ok, bads):
         rep.replayed += 1
